@@ -11,12 +11,13 @@
      TCP : 61 live (proved), 114 dead (12 DeadBadTtl + 80 DeadValueWindow + 22 DeadEolPad; one checked witness each),
            24 undecided (scale `0` written for a layout without `ws`: never at distance 0, in practice matched at
            distance 1) — Spec/ReachLists.v;
-     HTTP: 42 dead (13 for exact-literal messages, 9 Expsw, 20 ValueEquality; one checked witness each), 57 undecided:
-           C13 for HTTP is PARTIAL — only (a) zero_wins and the refutations are proved, no HTTP signature is proved live. *)
+     HTTP: 47 live (proved by the finite abstraction of Spec/ReachHttpSpec.v), 42 dead (13 for exact-literal messages,
+           9 Expsw, 20 ValueEquality; one checked witness each), 10 undecided (9 abstraction walks above 3000 leaves, 1
+           failing the check without a concrete witness): the HTTP partition is PARTIAL. *)
 From Coq Require Import List NArith Bool.
 From HN Require Import Base.Bytes Model.SigAst Model.Match Model.TcpExtract Model.Reach
   Spec.ScanSpec Spec.P0fTcp Spec.DbLoadSpec Spec.BundledSpec Spec.ConformSpec Spec.ReachSpec Spec.ReachLists Spec.ReachWitness
-  Proofs.ReachObs Proofs.ReachTcp Proofs.ReachBundled.
+  Spec.ReachHttpSpec Proofs.ReachObs Proofs.ReachTcp Proofs.ReachBundled Proofs.ReachHttp Proofs.ReachHttpBundled.
 Import ListNotations.
 Open Scope N_scope.
 
@@ -180,7 +181,62 @@ Theorem C13_known_kv6_refuted :
 Proof. exact known_kv6_refuted. Qed.
 Print Assumptions C13_known_kv6_refuted.
 
-(* ---- HTTP (PARTIAL): refutations and the partition; no HTTP signature is proved live ---- *)
+(* ---- HTTP ---- *)
+(* all databases: a signature that passes the finite-abstraction check (Spec/ReachHttpSpec.v live_http_b) is reachable by
+   every HTTP/1.x message that conforms to it (any body), outside C05's known classes *)
+Theorem C13_http :
+  forall (db : database) (k : hkind) (li si : N) (s : http_sig) (m : Http1Grammar.msg) (body : bytes),
+    In (li, si, s) (positions (http_table db k)) ->
+    live_http_b k (http_table db k) li si s = true ->
+    conforms_http k s m -> Http1Grammar.known m = false ->
+    exists f, reach_http db k (Http1Grammar.render m ++ body) = RMatch (http_table_id k) f
+              /\ admissible (http_table db k) (fun t => conforms_http_b k t m) li si f.
+Proof. exact reach_http_live. Qed.
+Check C13_http :
+  forall (db : database) (k : hkind) (li si : N) (s : http_sig) (m : Http1Grammar.msg) (body : bytes),
+    In (li, si, s) (positions (http_table db k)) ->
+    live_http_b k (http_table db k) li si s = true ->
+    conforms_http k s m -> Http1Grammar.known m = false ->
+    exists f, reach_http db k (Http1Grammar.render m ++ body) = RMatch (http_table_id k) f
+              /\ admissible (http_table db k) (fun t => conforms_http_b k t m) li si f.
+Print Assumptions C13_http.
+
+(* the abstraction lemma behind it: a message and its abstract message are at the same distance from every entry *)
+Theorem C13_http_distance_abstraction :
+  forall (k : hkind) (tbl : list (label * list http_sig)), fresh_ok tbl = true ->
+  forall (ver : http_version) (am : list afield) (fields : list (bytes * bytes)) (t : http_sig),
+    Forall2 (rel k tbl) am fields -> In t (all_sigs tbl) ->
+    http_distance t (obs_of_fields k ver (map conc am)) = http_distance t (obs_of_fields k ver fields).
+Proof. exact distance_abs. Qed.
+Print Assumptions C13_http_distance_abstraction.
+
+Theorem C13_bundled_http :
+  forall (k : hkind) (line li si : N) (s : http_sig) (m : Http1Grammar.msg) (body : bytes),
+    In line live_http_lines -> http_entry k line = Some (li, si, s) ->
+    conforms_http k s m -> Http1Grammar.known m = false ->
+    exists f, reach_http bundled_db k (Http1Grammar.render m ++ body) = RMatch (http_table_id k) f
+              /\ admissible (http_table bundled_db k) (fun t => conforms_http_b k t m) li si f.
+Proof. exact bundled_http_live. Qed.
+Check C13_bundled_http :
+  forall (k : hkind) (line li si : N) (s : http_sig) (m : Http1Grammar.msg) (body : bytes),
+    In line live_http_lines -> http_entry k line = Some (li, si, s) ->
+    conforms_http k s m -> Http1Grammar.known m = false ->
+    exists f, reach_http bundled_db k (Http1Grammar.render m ++ body) = RMatch (http_table_id k) f
+              /\ admissible (http_table bundled_db k) (fun t => conforms_http_b k t m) li si f.
+Print Assumptions C13_bundled_http.
+
+Example C13_bundled_http_hypotheses :
+  forallb (fun w => match parse_http_case (snd w) with
+                    | Some (k, line, m, body) =>
+                        (line =? fst w) && existsb (N.eqb line) live_http_lines &&
+                        match judge_http k line m body with
+                        | Some v => v_admissible v && negb (v_known_traffic v)
+                        | None => false end
+                    | None => false end) wit_ex_http = true /\ length wit_ex_http = 1%nat.
+Proof. vm_compute. split; reflexivity. Qed.
+
+(* refutations; the partition is PARTIAL for HTTP: 10 signatures are undecided (9 whose walk exceeds 3000 leaves, 1 that
+   fails the check without a concrete witness) *)
 (* http_refuted line := exists k li si s m body, http_entry k line = Some (li, si, s) /\ conforms_http k s m
      /\ Http1Grammar.known m = false
      /\ ~ (exists f, reach_http bundled_db k (render m ++ body) = RMatch (http_table_id k) f /\ admissible .. li si f) *)
@@ -194,9 +250,9 @@ Theorem C13_dead_http_value_refuted : forall line, In line dead_http_value_lines
 Proof. exact dead_http_value_refuted. Qed.
 Print Assumptions C13_dead_http_value_refuted.
 Theorem C13_bundled_http_partition_partial :
-  list_N_eqb (sort_N (dead_http_lines ++ undecided_http_lines)) (sort_N (sig_lines SecHQ ++ sig_lines SecHS)) = true
+  list_N_eqb (sort_N (live_http_lines ++ dead_http_lines ++ undecided_http_lines)) (sort_N (sig_lines SecHQ ++ sig_lines SecHS)) = true
   /\ length (sig_lines SecHQ ++ sig_lines SecHS) = 99%nat
-  /\ (length dead_http_exact_lines, length dead_http_expsw_lines, length dead_http_value_lines, length undecided_http_lines)
-     = (13, 9, 20, 57)%nat.
+  /\ (length live_http_lines, length dead_http_exact_lines, length dead_http_expsw_lines, length dead_http_value_lines,
+      length undecided_http_lines) = (47, 13, 9, 20, 10)%nat.
 Proof. exact bundled_http_partition. Qed.
 Print Assumptions C13_bundled_http_partition_partial.
